@@ -76,6 +76,9 @@ def _grid(rng, dim, *, safe_peak=False, tier="quick"):
 
 def gen(rng, kind, tier):
     case = _gen(rng, kind, tier)
+    if case is not None and kind == "count" and rng.random() < 0.2:
+        # other units of length: nanometres expressed in metres, kilometres in millimetres
+        case["stretch"] = float(rng.choice([1e-9, 1e-6, 1e-3, 1e3, 1e6, 1e9]))
     if case is not None and case.get("field", {}).get("type") == "speckled":
         case["field"]["mr"] = case["minimal_radius_cells"]
     return case
@@ -92,9 +95,15 @@ def _gen(rng, kind, tier):
             spec["shape"] = [n0] * dim
             spec["bounds"] = [[b[0], b[0] + float(hh[a]) * n0] for a, b in enumerate(spec["bounds"])]
         f = {"type": str(rng.choice(["noise", "smooth", "waves", "droplets"])), "seed": int(rng.integers(1 << 30))}
+        if dim >= 2 and rng.random() < 0.25:
+            # not every axis periodic: the field is only translated along the periodic ones
+            per = [bool(rng.integers(0, 2)) for _ in range(dim)]
+            if all(per) or not any(per):
+                per = [True] + [False] * (dim - 1) if rng.random() < 0.5 else [False] * (dim - 1) + [True]
+            spec["periodic"] = per
         return {"grid": spec, "field": f, "stretch": float(2.0 ** int(rng.integers(-6, 7))),
                 "scale": float(rng.choice([-1.0, 2.0, 0.125, -3.5, 1e3, 1e-3, 1e-6, 1e-9, 1e7, -1e-5])),
-                "roll": [int(rng.integers(-n, n + 1)) for n in spec["shape"]]}
+                "roll": [int(rng.integers(-n, n + 1)) if p else 0 for n, p in zip(spec["shape"], spec["periodic"])]}
     if kind in ("peak", "wave"):
         spec = _grid(rng, dim, safe_peak=True)
         m = [int(rng.integers(-(n // 4), n // 4 + 1)) for n in spec["shape"]]
@@ -140,6 +149,15 @@ def _gen(rng, kind, tier):
             per = [True, False] if rng.random() < 0.5 else [False, True]
             spec["periodic"] = per
         return {"grid": spec, "field": {"type": "bars", "seed": int(rng.integers(1 << 30))},
+                "threshold": str(rng.choice(["0.5", "auto", "mean"])), "stretch": float(2.0 ** int(rng.integers(-4, 5))),
+                "scale": float(rng.choice([2.0, 0.125, 7.0])),
+                "roll": [int(rng.integers(-n, n + 1)) if p else 0 for n, p in zip(spec["shape"], spec["periodic"])]}
+    if kind == "count" and dim == 2 and rng.random() < 0.25:
+        # branched domains (combs) cut by a periodic boundary so that one piece on one side touches several
+        # otherwise unconnected pieces on the other side
+        spec = _grid(rng, 2)
+        spec["periodic"] = [True, True] if rng.random() < 0.6 else [True, False]
+        return {"grid": spec, "field": {"type": "combs", "seed": int(rng.integers(1 << 30))},
                 "threshold": str(rng.choice(["0.5", "auto", "mean"])), "stretch": float(2.0 ** int(rng.integers(-4, 5))),
                 "scale": float(rng.choice([2.0, 0.125, 7.0])),
                 "roll": [int(rng.integers(-n, n + 1)) if p else 0 for n, p in zip(spec["shape"], spec["periodic"])]}
@@ -204,6 +222,29 @@ def make_data(spec, f):
                 mark[ii] = True
                 blocked |= _nd.binary_dilation(mark, iterations=2, structure=np.ones((3,) * len(shape)))
         return data
+    if t == "combs":
+        data = np.zeros(shape)
+        nx, ny = shape
+        y = 1
+        for _ in range(int(r.integers(1, 3))):
+            teeth = int(r.integers(2, 5))
+            gap = int(r.integers(1, 3))
+            tooth_w = int(r.integers(1, 3))
+            height = teeth * tooth_w + (teeth - 1) * gap
+            if y + height >= ny - 1:
+                break
+            x_cut = int(r.integers(0, nx))  # the spine sits in column x_cut, the teeth in the columns before it (periodic)
+            spine_w = int(r.integers(1, 3))
+            tooth_len = int(r.integers(2, max(3, nx // 3)))
+            for dx in range(spine_w):
+                data[(x_cut + dx) % nx, y:y + height] = 1.0
+            for k in range(teeth):
+                y0 = y + k * (tooth_w + gap)
+                for dx in range(1, tooth_len + 1):
+                    data[(x_cut - dx) % nx, y0:y0 + tooth_w] = 1.0
+            y += height + int(r.integers(2, 5))
+        # the cut is moved onto the spine/teeth junction of the first comb: roll so that column x_cut becomes column 0
+        return np.roll(data, -int(np.argmax(data.sum(axis=1) == data.sum(axis=1).max())), axis=0) if r.random() < 0.7 else data
     if t == "bars":
         data = np.zeros(shape)
         per = spec["periodic"]
@@ -408,7 +449,7 @@ def run(case, rec, *, ignore_known=False):
                 rec.count("count_roll_skipped_domains_of_equal_volume")
             else:
                 rolls = [list(case["roll"])]
-                if case["field"]["type"] in ("bars", "speckled"):  # several translations: label order / cut position changes with each
+                if case["field"]["type"] in ("bars", "speckled", "combs"):  # several translations: label order / cut position changes with each
                     rolls += [[(3 * x) // 2 + 1 if x else 0 for x in case["roll"]], [-(x // 3) - 2 if x else 0 for x in case["roll"]]]
                 for rl in rolls:
                     s = ls(rec, spec, np.roll(data, rl, axis=axes), "droplet_detection", **kw)
